@@ -2,7 +2,7 @@
 //! harness-owned children: polls, wakers handed out, values produced, drops.
 //! Reset at the top of every case.
 
-use crate::val::{Shape, Tok};
+use crate::val::{Shape, TokKind, Val};
 use std::cell::RefCell;
 use std::sync::atomic::{AtomicBool, AtomicU32, Ordering};
 use std::sync::Arc;
@@ -245,9 +245,11 @@ impl NodeRec {
 }
 
 pub struct TokRec {
-    pub producer: NodeId,
+    /// the child that produced it; None for harness-side composites
+    pub producer: Option<NodeId>,
     pub drops: u32,
     pub born: u32,
+    pub kind: TokKind,
 }
 
 #[derive(Clone, Copy, Debug, PartialEq, Eq, Hash, PartialOrd, Ord)]
@@ -412,34 +414,78 @@ pub fn take_world() -> World {
 }
 
 pub fn tok_dropped(id: u32) {
-    let r = try_with(|w| {
-        if let Some(t) = w.toks.get_mut(id as usize) {
-            t.drops += 1;
-            if t.drops > 1 {
-                let m = format!("token t{} dropped {} times", id, t.drops);
-                w.viol.push(Violation {
-                    oracle: Oracle::D,
-                    msg: m,
-                });
-            }
-            if w.trace_on {
-                w.trace.push(format!("      drop t{}", id));
-            }
-        } else {
-            w.unknown_tok_drops += 1;
-            w.viol.push(Violation {
-                oracle: Oracle::D,
-                msg: format!(
-                    "a token that was never produced was dropped (id {:#x}): read of a slot that does not hold a child's value",
-                    id
-                ),
-            });
-        }
-    });
-    let _ = r;
+    let _ = try_with(|w| w.tok_dropped(id));
+}
+
+pub fn new_composite(kind: TokKind) -> Val {
+    with(|w| {
+        let id = w.toks.len() as u32;
+        let born = w.tick();
+        w.toks.push(TokRec {
+            producer: None,
+            drops: 0,
+            born,
+            kind,
+        });
+        Val { id }
+    })
+}
+
+pub fn shape_of(id: u32) -> Shape {
+    with(|w| w.shape_of(id, 0))
 }
 
 impl World {
+    pub fn shape_of(&self, id: u32, depth: usize) -> Shape {
+        match self.toks.get(id as usize) {
+            None => Shape::Unknown(id),
+            Some(_) if depth > 6 => Shape::Unknown(id),
+            Some(t) => match &t.kind {
+                TokKind::Plain => Shape::T(id),
+                TokKind::List(v) => Shape::L(v.iter().map(|x| self.shape_of(*x, depth + 1)).collect()),
+                TokKind::Res(true, x) => Shape::Ok(Box::new(self.shape_of(*x, depth + 1))),
+                TokKind::Res(false, x) => Shape::Err(Box::new(self.shape_of(*x, depth + 1))),
+                TokKind::Pair(i, x) => Shape::P(*i, Box::new(self.shape_of(*x, depth + 1))),
+            },
+        }
+    }
+
+    pub fn tok_dropped(&mut self, id: u32) {
+        let mut stack = vec![id];
+        let mut guard = 0;
+        while let Some(id) = stack.pop() {
+            guard += 1;
+            if guard > 10_000 {
+                break;
+            }
+            if let Some(t) = self.toks.get_mut(id as usize) {
+                t.drops += 1;
+                if t.drops > 1 {
+                    let m = format!("value t{} dropped {} times", id, t.drops);
+                    self.violate(Oracle::D, m);
+                    continue;
+                }
+                match &t.kind {
+                    TokKind::Plain => {}
+                    TokKind::List(v) => stack.extend(v.iter().cloned()),
+                    TokKind::Res(_, x) | TokKind::Pair(_, x) => stack.push(*x),
+                }
+                if self.trace_on {
+                    self.trace.push(format!("      drop t{}", id));
+                }
+            } else {
+                self.unknown_tok_drops += 1;
+                self.violate(
+                    Oracle::D,
+                    format!(
+                        "a value that no child produced was dropped (handle {:#x}): an output slot that does not hold a child's value was read",
+                        id
+                    ),
+                );
+            }
+        }
+    }
+
     pub fn tick(&mut self) -> u32 {
         self.clock += 1;
         self.clock
@@ -485,15 +531,16 @@ impl World {
         id
     }
 
-    pub fn new_tok(&mut self, producer: NodeId) -> Tok {
+    pub fn new_tok(&mut self, producer: NodeId) -> Val {
         let id = self.toks.len() as u32;
         let born = self.tick();
         self.toks.push(TokRec {
-            producer,
+            producer: Some(producer),
             drops: 0,
             born,
+            kind: TokKind::Plain,
         });
-        Tok { id }
+        Val { id }
     }
 
     /// every enclosing combinator is unfinished, undropped, not removed
@@ -635,7 +682,7 @@ pub struct Runaway;
 
 pub enum LeafOut {
     Pending,
-    Yield(Tok, bool),
+    Yield(Val, bool),
     End,
 }
 
